@@ -10,6 +10,7 @@ package c12
 
 import (
 	"bytes"
+	"os"
 	"encoding/json"
 	"fmt"
 	"sort"
@@ -330,15 +331,25 @@ func (d Driver) Run(c *core.Ctx) error {
 		"clipping is not modelled: painting a path while a clip is in force is reported as outside the model (machinery), the clip around an image is accepted",
 		"gradients and patterns are not part of the style space"}
 
+	phase := map[string]float64{}
+	t0 := time.Now()
+	lap := func(name string) {
+		phase[name] = time.Since(t0).Seconds()
+		fmt.Fprintf(os.Stderr, "C12 phase %-10s %.1fs\n", name, phase[name])
+		t0 = time.Now()
+		c.SetExtra("phase_wall_s", phase)
+	}
 	h, err := header(c)
 	if err != nil {
 		return err
 	}
+	lap("header")
 
 	// 1. model level: the reference emitter's output conforms for every language (spec consistency), all single draws + pairs
 	c.TLC(tlc.Opts{Module: "GState", Config: mcCfg("mc", c.Pick(4, 12)), Seed: c.Seed, Coverage: c.Thorough()}, true)
 	c.TLC(tlc.Opts{Module: "GState", Config: mcCfg("mcfull", c.Pick(400, 6000)), Seed: c.Seed}, true)
 
+	lap("model")
 	// 2. generate programs (with the painter's-order frame for the rasterizer tie-in)
 	var mu sync.Mutex
 	var progs []genLine
@@ -401,6 +412,7 @@ func (d Driver) Run(c *core.Ctx) error {
 		c.Sample(map[string]any{"program": progs[i*len(progs)/3].Prog, "requested_paints": progs[i*len(progs)/3].Paints})
 	}
 
+	lap("generate")
 	// 3. render + lex (parallel), chunked traces
 	nChunks := 12
 	chunks := make([]bytes.Buffer, nChunks+1)
@@ -482,6 +494,7 @@ func (d Driver) Run(c *core.Ctx) error {
 	}
 	nChunks++
 
+	lap("render+lex")
 	// 4. validate (diagnostic variant, several TLC processes in parallel)
 	var allErrs []errRec
 	var emu sync.Mutex
@@ -504,6 +517,7 @@ func (d Driver) Run(c *core.Ctx) error {
 	})
 	c.Count(nTraces, 0, nTraces-int64(len(allErrs)))
 
+	lap("validate")
 	// 5. verdicts: every class of divergence is first re-validated alone with the strict variant
 	sort.Slice(allErrs, func(i, j int) bool { return allErrs[i].E.Pid < allErrs[j].E.Pid })
 	confirmed := map[string]int{}
@@ -532,8 +546,10 @@ func (d Driver) Run(c *core.Ctx) error {
 	}
 	c.SetExtra("divergences_by_signature", bySig)
 
+	lap("verdicts")
 	// 6. the same programs through the rasterizer, against the frame of spec/Raster.tla
-	rasterTieIn(c, h, progs)
+	rasterTieIn(c, h, progs[:nBulk])
+	lap("raster")
 	return nil
 }
 
